@@ -257,6 +257,35 @@ def check_product(case):
                 e2 = np.repeat(pa[1], pa[0].size)
                 if not (eq(s1, e1) and eq(s2, e2)):
                     out.append(("product/pair", "real_pair_samples is not the Cartesian product (sizes %d,%d vs %d)" % (pa[0].size, pa[1].size, s1.size)))
+            elif kind == "complex_pair":
+                # axes = [re1, im1, re2, im2]
+                def tup(i, j, k):
+                    a, b = axes[i][k], axes[j][k]
+                    if a is None and b is None:
+                        return None
+                    if a is None or b is None:
+                        return None
+                    return (_val(a, f), _val(b, f))
+
+                kw = dict(min_real_value=tup(0, 2, 1), max_real_value=tup(0, 2, 2), min_imag_value=tup(1, 3, 1), max_imag_value=tup(1, 3, 2))
+                used = []
+                for i, ax in enumerate(axes):
+                    j = {0: 2, 1: 3, 2: 0, 3: 1}[i]
+                    mn = ax[1] if (ax[1] is not None and axes[j][1] is not None) else None
+                    mx = ax[2] if (ax[2] is not None and axes[j][2] is not None) else None
+                    used.append(one((ax[0], mn, mx)))
+                s1, s2 = utils.complex_pair_samples(((axes[0][0], axes[1][0]), (axes[2][0], axes[3][0])), dtype=f.ftype, **kw, **flags)
+                re1, im1, re2, im2 = used
+                c1 = [(a, b) for b in im1 for a in re1]
+                c2 = [(a, b) for b in im2 for a in re2]
+
+                def key(v):
+                    return tuple((1, 0.0) if x != x else (0, float(x)) for x in v)
+
+                want = sorted(key(u + v) for u in c1 for v in c2)
+                got = sorted(key((a.real, a.imag, b.real, b.imag)) for a, b in zip(np.asarray(s1).ravel(), np.asarray(s2).ravel()))
+                if s1.shape != s2.shape or want != got:
+                    out.append(("product/complex_pair", "complex_pair_samples is not the Cartesian product of its four 1-D axes (%d pairs, expected %d)" % (len(got), len(want))))
             elif kind == "triple":
                 allmin = all(t[1] is not None for t in axes)
                 allmax = all(t[2] is not None for t in axes)
@@ -345,13 +374,13 @@ def real_cases(draw):
 def product_cases(draw):
     fb = draw(st.sampled_from([32, 64]))
     f = flt.FMT[fb]
-    kind = draw(st.sampled_from(["complex", "pair", "triple"]))
+    kind = draw(st.sampled_from(["complex", "pair", "triple", "complex_pair"]))
     case = {"fmt": fb, "product": kind}
     for k in FLAGS:
         dflt = {"include_infinity": True, "include_zero": True, "include_subnormal": False, "include_nan": False, "include_huge": True, "nonnegative": False, "unique": True}[k]
         case[k] = draw(st.sampled_from([dflt, dflt, not dflt]))
     case["unique"] = True
-    n = 3 if kind == "triple" else 2
+    n = 3 if kind == "triple" else (4 if kind == "complex_pair" else 2)
     withb = draw(st.booleans())
     axes = []
     for _ in range(n):
